@@ -14,7 +14,7 @@ from vf.core.state import digest
 
 ID = "C20"
 RULE = (
-    "for each base mesh: variants = {same, rebuilt, copy(), copy() with one lon / lat / connectivity entry overwritten in place} + every single-entry perturbation of lon, lat (by 0.25 deg; and by one ulp, 1e-9, 1e-6 deg), "
+    "for each base mesh: variants = {same, rebuilt, copy(), copy() with one lon / lat / connectivity entry overwritten in place, grids built successively from the same connectivity array object edited in place in between, the same corners given as Cartesian face vertices with node_lat / node_lon / node_x read first} + every single-entry perturbation of lon, lat (by 0.25 deg; and by one ulp, 1e-9, 1e-6 deg), "
     "the plain variants again with lazily derived quantities materialised on one side only (edge tables / node_face / everything), "
     "face-node table (to another valid node; to fill), +1 node, +1/-1 face, other source spec; all ordered pairs "
     "(i, j) are compared; non-trivial = pairs whose two members differ in exactly one component or are equal-by-content "
@@ -99,6 +99,16 @@ def variants(mesh):
     t2 = tab.copy()
     t2[0, 0] = (tab[0, 0] + 1) % nn
     out.append(({"v": "conn", "f": 0, "j": 0, "via": "copy-edit", "extra": True}, S, lon, lat, t2))
+    # grids built one after the other from the SAME array objects, edited in place between the two constructions
+    # (the content at construction time is what counts, not the identity of the container)
+    for f, j in ((0, 0), (tab.shape[0] - 1, 1)):
+        t3 = tab.copy()
+        t3[f, j] = (tab[f, j] + 1) % nn if tab[f, j] != FILL else 0
+        out.append(({"v": "conn", "f": f, "j": j, "via": "same-arrays", "extra": True}, S, lon, lat, t3))
+    out.append(({"v": "rebuilt", "via": "same-arrays", "extra": True}, S, lon.copy(), lat.copy(), tab.copy()))
+    # the same corner coordinates given as Cartesian face vertices: equal whatever was read first on each object
+    for first in ("node_lat", "node_lon", "node_x", "none"):
+        out.append(({"v": "face-vertices-xyz", "first": first, "extra": True, "mat": "fv:" + first}, "Face Vertices", lon, lat, tab))
     return out
 
 
@@ -114,6 +124,24 @@ def build(v, cache):
     import xarray as xr
 
     d, spec, lon, lat, tab = v
+    if d["v"] == "face-vertices-xyz":
+        from vf.oracle import sph as _sph
+
+        P = _sph.ll2xyz(lon, lat)
+        verts = [[P[int(i)].tolist() for i in row if i != FILL] for row in tab]
+        if len({len(v) for v in verts}) != 1:
+            verts = [v for v in verts if len(v) == len(verts[0])]  # from_face_vertices takes faces of one size
+        g = ux.Grid.from_face_vertices(verts, latlon=False)
+        if d["first"] != "none":
+            getattr(g, d["first"])
+        return g
+    if d.get("via") == "same-arrays":
+        # one set of array objects per case, overwritten in place before every construction
+        # (only the connectivity table is shared: from_topology standardises it into its own array, whereas coordinate arrays may be
+        # adopted without a copy -- no property promises that a grid is a snapshot of arrays its caller keeps editing)
+        A = cache.setdefault("same-arrays", {"tab": tab.copy()})
+        A["tab"][...] = tab
+        return ux.Grid.from_topology(lon.copy(), lat.copy(), A["tab"], fill_value=FILL)
     if d.get("via") == "copy-edit":
         g = cache["base"].copy()
         if d["v"] == "lon":
